@@ -388,3 +388,179 @@ def normalize_default_unit(prop):
 
 
 UNITS += [typehint_instantiate_unit("C14"), normalize_default_unit("C14")]
+
+
+# ------------------------------------------------------------------------------------- the classification of type hints (what "a class type" means)
+# is_single_subclass_typehint: a class that is none of the kinds which have their own treatment (leaf / root type, registered type,
+# pydantic type, dataclass-like, generic alias, Path, Enum).  is_subclass_typehint: that, or a Union (with also_lists: a sequence) whose
+# members other than None all (all_subtypes) / some (not all_subtypes) qualify.
+SK = ["plain-class", "not-a-class", "leaf-or-root-type", "registered", "pydantic", "dataclass-like", "generic-alias-of-a-class", "Path-subclass", "Enum-subclass"]
+
+
+def ssc_setup(ctx):
+    k = SK[ctx.choose(len(SK), "typehint")]
+    hint = Rec("typehint", attrs={"kind": k})
+    origin = Rec("origin") if k == "generic-alias-of-a-class" else None
+    leaf = Rec("typehint", attrs={"kind": "the-leaf"})
+    calls = {"inspect.isclass": lambda c, a, kw: a[0].attrs["kind"] != "not-a-class", "get_registered_type": lambda c, a, kw: Rec("RegisteredType") if a[0].attrs["kind"] == "registered" else None,
+             "is_pydantic_type": lambda c, a, kw: a[0].attrs["kind"] == "pydantic", "is_dataclass_like": lambda c, a, kw: a[0].attrs["kind"] == "dataclass-like",
+             "is_subclass": lambda c, a, kw: a[0].attrs["kind"] in ("Path-subclass", "Enum-subclass")}
+    consts = {"leaf_or_root_types": {hint} if k == "leaf-or-root-type" else {leaf}, "Path": ClassRef("Path"), "Enum": ClassRef("Enum")}
+    return Setup(env={"typehint": hint, "typehint_origin": origin}, calls=calls, consts=consts, data=dict(k=k))
+
+
+def ssc_post(ctx, st, result):
+    k = st.data["k"]
+    ctx.oblige("post", f"a-class-type-is-a-class-that-is-none-of:leaf/root-type,registered,pydantic,dataclass-like,generic-alias,Path,Enum[{k}]", bool(result) is (k == "plain-class"))
+
+
+def is_single_subclass_typehint_unit(prop):
+    return Unit(prop, "jsonargparse._typehints:is_single_subclass_typehint", ssc_setup, ssc_post, None, expect_cover=("return",),
+                trusted=["inspect.isclass / get_registered_type / is_pydantic_type / is_dataclass_like / is_subclass answer for the kind of the type (their own units or external)"])
+
+
+HK = ["None", "action-without-type", "action-with-class-type", "class", "int", "Optional[class]", "Union[class,class]", "Union[class,int]", "Union[int,str]", "List[class]", "List[int]", "List[Union[class,int]]"]
+
+
+def ist_setup(ctx):
+    hk = HK[ctx.choose(len(HK), "typehint")]
+    all_sub = [True, False, None][ctx.choose(3, "all_subtypes")]
+    also = [False, True, None][ctx.choose(3, "also_lists")]
+    ctx.classes.add("ActionTypeHint", ["Action"])
+    NONE = Rec("NoneType")
+    A, B, I, S = (Rec("hint", attrs={"kind": "class", "args": None, "origin": None}), Rec("hint", attrs={"kind": "class", "args": None, "origin": None}),
+                  Rec("hint", attrs={"kind": "int", "args": None, "origin": None}), Rec("hint", attrs={"kind": "str", "args": None, "origin": None}))
+
+    def mk(origin, args):
+        return Rec("hint", attrs={"kind": origin, "origin": origin, "__args__": tuple(args)})
+    table = {"class": A, "int": I, "Optional[class]": mk("Union", [A, NONE]), "Union[class,class]": mk("Union", [A, B]), "Union[class,int]": mk("Union", [A, I]), "Union[int,str]": mk("Union", [I, S]),
+             "List[class]": mk("list", [A]), "List[int]": mk("list", [I]), "List[Union[class,int]]": mk("list", [mk("Union", [A, I])])}
+    if hk == "None":
+        given = None
+    elif hk.startswith("action"):
+        given = Rec("ActionTypeHint", attrs={"_typehint": A} if hk.endswith("class-type") else {})
+    else:
+        given = table[hk]
+    rec_calls = []
+
+    def recursive(c, a, k):
+        rec_calls.append((a[0], dict(k)))
+        t = a[0]
+        # contract of the recursive call, for the members that occur here: a class -> True, int/str -> False, Union[class,int] (all_subtypes default True) -> False
+        return t.attrs["kind"] == "class"
+
+    calls = {"get_unaliased_type": lambda c, a, k: a[0], "get_typehint_origin": lambda c, a, k: a[0].attrs.get("origin"),
+             "is_single_subclass_typehint": lambda c, a, k: (c.event("single", a[0], a[1]), a[0].attrs["kind"] == "class")[1], "ActionTypeHint.is_subclass_typehint": recursive}
+    consts = {"Union": "Union", "sequence_origin_types": {"list", "tuple-seq"}, "NoneType": NONE}
+    env = {"typehint": given}
+    if all_sub is not None:
+        env["all_subtypes"] = all_sub
+    if also is not None:
+        env["also_lists"] = also
+    return Setup(env=env, calls=calls, consts=consts, inline={"typehint_from_action": "jsonargparse._typehints:typehint_from_action"},
+                 data=dict(hk=hk, all_sub=True if all_sub is None else all_sub, also=bool(also), given=given, rec_calls=rec_calls, A=A, NONE=NONE, table=table))
+
+
+def ist_post(ctx, st, result):
+    d = st.data
+    hk = d["hk"]
+    tag = f"[{hk},all_subtypes={d['all_sub']},also_lists={d['also']}]"
+    if hk in ("None", "action-without-type"):
+        ctx.oblige("post", "no-type-hint=>False" + tag, result is False)
+        return
+    compound = hk.startswith(("Optional", "Union")) or (hk.startswith("List") and d["also"])
+    if not compound:
+        ev = [e for e in ctx.events if e[0] == "single"]
+        want = hk in ("class", "action-with-class-type")
+        ctx.oblige("post", "a-hint-that-is-not-a-Union(nor, with also_lists, a sequence)-is-judged-as-a-single-class-type;an-action-is-judged-by-its-own-hint" + tag, bool(result) is want and len(ev) == 1 and not d["rec_calls"])
+        return
+    members = [m for m in d["given"].attrs["__args__"] if m is not d["NONE"]]
+    answers = [m.attrs["kind"] == "class" for m in members]
+    want = all(answers) if d["all_sub"] else any(answers)
+    ctx.oblige("post", "a-Union(with also_lists: a sequence)-qualifies-iff-all(all_subtypes)/some-of-its-members-other-than-None-do" + tag, bool(result) is want, note=f"members {answers}")
+    ok = all(k == {"also_lists": d["also"]} for _, k in d["rec_calls"]) and [m for m, _ in d["rec_calls"]][: len(members)] == members[: len(d["rec_calls"])]
+    ctx.oblige("post", "the-members-are-judged-by-the-same-function,with-the-caller's-also_lists" + tag, ok and not [e for e in ctx.events if e[0] == "single"])
+
+
+def is_subclass_typehint_unit(prop):
+    return Unit(prop, "jsonargparse._typehints:ActionTypeHint.is_subclass_typehint", ist_setup, ist_post, None, expect_cover=("return",), max_paths=5000,
+                trusted=["is_single_subclass_typehint: its own unit", "the recursive call by contract", "get_typehint_origin / get_unaliased_type / __args__ describe the hint as typing does (A4)"])
+
+
+UNITS += [is_single_subclass_typehint_unit("C14"), is_subclass_typehint_unit("C14")]
+
+
+# ------------------------------------------------------------------------------------- ActionTypeHint.is_supported_typehint
+# Which type hints get a type-checking action at all (everything else is refused by add_argument / skipped by the signature code):
+# a root type or a parametrised one, a registered type, an Enum, a dataclass-like class, a class type (or Union of them); Namespace is
+# refused outright.  With full=True the parameters count too: a container with a parameter that is not supported is not supported;
+# a Union is, as soon as one member is.
+SUP = ["Namespace-subclass", "root-type(bare)", "registered", "Enum", "dataclass-like", "class-type", "unsupported",
+       "List[int]", "List[unsupported]", "Dict[str,unsupported]", "Tuple[int,...]", "Union[int,unsupported]", "Union[unsupported,unsupported]", "Optional[unsupported]", "Literal[1]", "Type[TypeVar]", "List[TypeVar]"]
+
+
+def isup_setup(ctx):
+    k = SUP[ctx.choose(len(SUP), "typehint")]
+    full = ctx.choose(2, "full") == 1
+    ctx.classes.add("TypeVar", [])
+    NONE, ELL = Rec("NoneType"), Rec("Ellipsis")
+    LIST, DICT, TUPLE, UNION, LIT, TYPE = (Rec("origin " + n) for n in ("list", "dict", "tuple", "Union", "Literal", "type"))
+    INT, STR = Rec("hint", attrs={"kind": "leaf", "origin": None}), Rec("hint", attrs={"kind": "leaf", "origin": None})
+    UNS = Rec("hint", attrs={"kind": "unsupported", "origin": None})
+    TV = Rec("TypeVar", attrs={"kind": "unsupported", "origin": None})
+
+    def mk(origin, args):
+        return Rec("hint", attrs={"kind": "generic", "origin": origin, "__args__": tuple(args)})
+    table = {"Namespace-subclass": Rec("hint", attrs={"kind": "namespace", "origin": None}), "root-type(bare)": LIST, "registered": Rec("hint", attrs={"kind": "registered", "origin": None}),
+             "Enum": Rec("hint", attrs={"kind": "enum", "origin": None}), "dataclass-like": Rec("hint", attrs={"kind": "dataclass", "origin": None}), "class-type": Rec("hint", attrs={"kind": "class", "origin": None}),
+             "unsupported": UNS, "List[int]": mk(LIST, [INT]), "List[unsupported]": mk(LIST, [UNS]), "Dict[str,unsupported]": mk(DICT, [STR, UNS]), "Tuple[int,...]": mk(TUPLE, [INT, ELL]),
+             "Union[int,unsupported]": mk(UNION, [INT, UNS]), "Union[unsupported,unsupported]": mk(UNION, [UNS, UNS]), "Optional[unsupported]": mk(UNION, [UNS, NONE]), "Literal[1]": mk(LIT, [1]),
+             "Type[TypeVar]": mk(TYPE, [TV]), "List[TypeVar]": mk(LIST, [TV])}
+    hint = table[k]
+    for r in (LIST, DICT, TUPLE, UNION, LIT, TYPE):
+        r.attrs.setdefault("kind", "root")
+        r.attrs.setdefault("origin", None)
+    rec_calls = []
+
+    def recursive(c, a, kw):
+        rec_calls.append((a[0], dict(kw)))
+        return isinstance(a[0], Rec) and a[0].attrs.get("kind") in ("leaf", "class", "enum", "registered", "dataclass", "root")
+
+    calls = {"get_unaliased_type": lambda c, a, kw: a[0], "is_subclass": lambda c, a, kw: isinstance(a[0], Rec) and a[0].attrs.get("kind") == ("namespace" if a[1].name == "Namespace" else "enum"),
+             "get_typehint_origin": lambda c, a, kw: a[0].attrs.get("origin") if isinstance(a[0], Rec) else None, "get_registered_type": lambda c, a, kw: Rec("RegisteredType") if a[0].attrs.get("kind") == "registered" else None,
+             "is_dataclass_like": lambda c, a, kw: a[0].attrs.get("kind") == "dataclass", "ActionTypeHint.is_subclass_typehint": lambda c, a, kw: a[0].attrs.get("kind") == "class",
+             "ActionTypeHint.is_supported_typehint": recursive}
+    consts = {"Namespace": ClassRef("Namespace"), "Enum": ClassRef("Enum"), "root_types": {LIST, DICT, TUPLE, UNION, LIT, TYPE}, "literal_types": {LIT}, "leaf_types": {INT, STR}, "NoneType": NONE,
+              "Ellipsis": ELL, "Union": UNION, "type": TYPE, "TypeVar": ClassRef("TypeVar")}
+    return Setup(env={"typehint": hint, "full": full}, calls=calls, consts=consts, data=dict(k=k, full=full, hint=hint, rec_calls=rec_calls))
+
+
+def isup_expected(k, full):
+    if k == "Namespace-subclass":
+        return "refuse"
+    if k == "unsupported":
+        return False
+    if not full:
+        return True
+    return k not in ("List[unsupported]", "Dict[str,unsupported]", "Union[unsupported,unsupported]", "Optional[unsupported]", "List[TypeVar]")
+
+
+def isup_post(ctx, st, result):
+    d = st.data
+    want = isup_expected(d["k"], d["full"])
+    ctx.oblige("post", f"supported-iff:root/parametrised-root,registered,Enum,dataclass-like-or-class-type;with-full=True-a-container-needs-every-parameter-supported,a-Union-at-least-one[{d['k']},full={d['full']}]",
+               want != "refuse" and bool(result) is want)
+    ctx.oblige("post", f"parameters-are-judged-with-full=True-too[{d['k']},full={d['full']}]", all(kw == {"full": True} for _, kw in d["rec_calls"]))
+
+
+def isup_raises(ctx, st, exc):
+    d = st.data
+    ctx.oblige("raises", f"refused=>ValueError-exactly-for-Namespace(a result type, not an input type)[{d['k']}]", exc.cls == "ValueError" and d["k"] == "Namespace-subclass")
+
+
+def is_supported_typehint_unit(prop):
+    return Unit(prop, "jsonargparse._typehints:ActionTypeHint.is_supported_typehint", isup_setup, isup_post, isup_raises, expect_cover=("return", "raise:ValueError"),
+                trusted=["is_subclass_typehint: its own unit", "the recursive call by contract", "get_typehint_origin / get_registered_type / is_dataclass_like / is_subclass describe the hint (A4)"])
+
+
+UNITS += [is_supported_typehint_unit("C02")]
